@@ -126,7 +126,7 @@ class Rec:
     pass
 
 
-def step(ctx, desc, x):
+def step(ctx, desc, x, pre_hook=None):
     """Build the pre-state, run the operation on the real code and on the
     model.  Returns a Rec."""
     from nutree import Tree
@@ -157,6 +157,8 @@ def step(ctx, desc, x):
     r.tree, r.nodes, r.reg, r.model = tree, nodes, reg, model
     r.old_node_ids = [nd.node_id for nd in nodes]
     r.pre_inv = B.inv_all(tree) if ctx.native else ""  # builder sanity (native validation pass only)
+    if pre_hook is not None:
+        pre_hook(tree, nodes)
     r.obs_before = B.observe(tree, reg)
     if B.obs_equal(r.obs_before, model.observe()):
         r.pre_clause = "builder:pre-state-differs-from-model"
